@@ -73,11 +73,26 @@ def check_case(run, case):
     finally:
         repo.drop_rules(name)
 
+def many_prefix_case(rng):
+    """A list in which no initial n-gram is frequent: several hundred passwords with pairwise different prefixes, so the lowest initial-n-gram level is 1 or
+    more (a level-0 prefix needs a share of about 1/680 of the list).  The remaining level then goes negative in places where it never does on small lists."""
+    import string
+    syms = rng.sample(string.ascii_lowercase + string.digits, rng.choice([28, 30, 32]))
+    tail = rng.choice(syms)
+    n = rng.choice([700, 800, 900])
+    pref = rng.sample([a + b for a in syms for b in syms], n)
+    items = [[p_ + tail * rng.choice([2, 2, 3]), 1] for p_ in pref]
+    return {'items': items, 'encoding': 'utf-8', 'ngram': 3, 'max_len': 6, 'alphabet': 100, 'coverage': 0.6, 'symbols': ''.join(syms), 'hseed': rng.getrandbits(32),
+            'prefixcount': False, 'many_prefixes': True}
+
 def run(run, rng):
     run.required_events = ['levels_compared', 'retrained_in_place_with_other_options']
     run.min_distinct = 10
     run.assumptions = ['max_len 5-8 handed to run_trainer (harness bound) so that levels can be enumerated; the trainer\'s own 10^10 cut-off is out of reach of enumeration',
                        'levels whose model exceeds 200000 strings are not decided (inconclusive)']
+    if run.shard[0] == 0 or run.tier == 'thorough':
+        run.ev('many_prefix_lists')
+        run.guard(many_prefix_case(rng), check_case, seconds=600)
     for i in range(N[run.tier]):
         case = c11.gen_case(rng)
         if i % 5 == 4:
